@@ -1,5 +1,5 @@
 """C14 - reads on lr_guarded, cow_guarded and rcu lists never wait for writers."""
-from ..blocking import blocking_sites, classify_loops
+from ..blocking import blocking_sites, classify_loops, wait_on_value_only
 from ..common import call_closure
 from ..engine import path
 from ..flow import TooManyPaths
@@ -124,6 +124,11 @@ def noblock(ctx):
         bad = []
         for g, via, caller in clo:
             for st, what in blocking_sites(eng, fb, g):
+                if what.startswith("yield/sleep"):
+                    q = wait_on_value_only(eng, fb, g, st)
+                    if q:
+                        ctx.unknown("C14.noblock: " + q)
+                        continue
                 bad.append("%s in %s at %s" % (what, g.name, g.loc(st)))
         ctx.ob("C14.noblock", not bad, f.where, "%s::%s reaches no blocking primitive (%d functions in its closure)"
                % (f.rec.split("::")[-1], f.name, len(clo)), "; ".join(bad[:3]), fn=f.label, inst=f.qname)
